@@ -213,6 +213,29 @@ pub fn check_default(kind: Kind, clock: Clock, spec: &[i128]) -> Result<(), Stri
             let want = if kind == Kind::Ts { next.map(|n| n * US_PER_DAY) } else { None };
             (pic, text, want)
         }
+        // 22: a weekday but no day of month / day of year: the omitted day is 1, and the written
+        //     weekday must be that day's (shape, weekday offset, month, year)
+        22 => {
+            let (m, y) = (a(3), a(4));
+            let (d, shape) = match a(1) {
+                0 => (date(cy, cm, 1), 0),
+                1 => (date(cy, m, 1), 1),
+                2 => (date(y, m, 1), 2),
+                _ => (date(y, cm, 1), 3),
+            };
+            // weekday of the resolved date (if it exists), shifted by the offset
+            let wd = d.and_then(|n| c.row(n as i64).map(|r| r.wd as i64)).unwrap_or(1);
+            let w = ((wd - 1 + a(2)).rem_euclid(7) + 1) as usize;
+            let (pic, text) = match shape {
+                0 => ("DY".to_string(), DAY_NAMES[w - 1][..3].to_string()),
+                1 => ("MM DAY".to_string(), format!("{m:02} {}", DAY_NAMES[w - 1])),
+                2 => ("YYYY-MM Dy".to_string(), format!("{y:04}-{m:02} {}", &DAY_NAMES[w - 1][..3])),
+                _ => ("D YYYY HH24:MI".to_string(), format!("{w} {y:04} 10:30")),
+            };
+            let tod = if shape == 3 { 10 * US_PER_HOUR + 30 * US_PER_MIN } else { 0 };
+            let want = if a(2).rem_euclid(7) == 0 { if shape == 3 && kind == Kind::Date { None } else { with_time(d, tod) } } else { None };
+            (pic, text, want)
+        }
         k => return Err(format!("unknown default spec {k}")),
     };
     // time-bearing specs make no sense for the plain Date type: an error is required there
@@ -493,6 +516,12 @@ fn specs_for(r: &Row, idx: u64, seed: u64, thorough: bool) -> Vec<Vec<i128>> {
     for (n, val) in [(1i128, 5i128), (2, 5), (2, 24), (3, 123), (1 + (idx % 3) as i128, sm.below(10) as i128 + 1)] {
         v.push(vec![20, n, val, ((idx as i128 + n + val) % 4)]);
     }
+    // a weekday without a day: the 1st, with the right and with a wrong weekday
+    for shape in 0..4i128 {
+        let (m, y) = (1 + sm.below(12) as i128, 1 + sm.below(9999) as i128);
+        v.push(vec![22, shape, 0, m, y]);
+        v.push(vec![22, shape, 1 + sm.below(6) as i128, m, y]);
+    }
     v.push(vec![9, 13, 45]);
     v.push(vec![9, 0, 0]);
     v.push(vec![10]);
@@ -720,7 +749,7 @@ pub fn run(ctx: &Ctx) -> (Stats, Report) {
     let _ = Time::ZERO;
 
     let rep = Report {
-        rule: format!("The injected clock (cargo feature verif-hooks, thread-local) ranges over ALL 3,652,059 possible current local dates x {} time(s) of day (thorough: midnight, 00:00:00.5, 12:34:56.789012, 23:59:59.999999 under every date; quick: one of those five classes incl. 00:00:00.000001 per date, rotating with the date). Under each clock: partial pictures \"\", DD (1, 28..31, month length +-), MM, MM-DD, MON DD, YYYY, YYYY-DD, DDD (incl. 365/366), Y / YY / YYY with value classes (all values for Y/YY in thorough) alone and with month/day, with a leading '+' and with a '-' (which denotes no date), the same partial pictures with a field that is present but outside its domain (month 0 / 13, day 0 / 32, day of year 0 / 367, year 0: no date, whatever the clock), a fraction carrying out of 23:59:59 under pictures that take year / month from the clock, HH24:MI, HH:MI AM with empty text, SS, .FF, DD HH:MI PM, an omission grid (12 time-part pictures in several field orders, meridian before or after the 12-hour field, text ending after every token; also swept exhaustively under 7 clocks), rotated over Date / Timestamp / OracleDate; Date::now, Timestamp::now, OracleDate::now, Timestamp::try_from(Time), OracleDate::try_from(Time); the same constructors with the clock inside a leap second (second 59 + 1,000,000..1,999,999 us: an error or an in-range value within those two seconds). Every parse goes through T::parse, a fresh Formatter and a long-lived Formatter (compiled once per thread and picture, so it has parsed under many other current dates before). Once per run, before any worker thread starts, the five clock readers are also called WITHOUT the hook under a process time zone 13 hours east or west of UTC (whichever makes the local date differ from the UTC date at that moment): they must agree on the local date. Oracle: model defaults (year and month from the clock, day 1, time 0, 12 for an omitted 12-hour field, short years completed with the leading digits of the clock year) validated by the walked calendar (so DD=31 in a 30-day current month, DDD=366 in a common current year, a completed year 0 are errors). Complete pictures (14 shapes incl. weekday + day of year with and without month / day x date pool) must give the identical value under 9 different clocks incl. both range ends. Non-trivial = clock at a month end / year end / century-end year / 29 Feb / year < 1000 / year 9999; distinct by enumeration.", tods.len()),
+        rule: format!("The injected clock (cargo feature verif-hooks, thread-local) ranges over ALL 3,652,059 possible current local dates x {} time(s) of day (thorough: midnight, 00:00:00.5, 12:34:56.789012, 23:59:59.999999 under every date; quick: one of those five classes incl. 00:00:00.000001 per date, rotating with the date). Under each clock: partial pictures \"\", DD (1, 28..31, month length +-), MM, MM-DD, MON DD, YYYY, YYYY-DD, DDD (incl. 365/366), Y / YY / YYY with value classes (all values for Y/YY in thorough) alone and with month/day, with a leading '+' and with a '-' (which denotes no date), the same partial pictures with a field that is present but outside its domain (month 0 / 13, day 0 / 32, day of year 0 / 367, year 0: no date, whatever the clock), a weekday token without any day field (the 1st of the resolved month, accepted with its own weekday and rejected with another), a fraction carrying out of 23:59:59 under pictures that take year / month from the clock, HH24:MI, HH:MI AM with empty text, SS, .FF, DD HH:MI PM, an omission grid (12 time-part pictures in several field orders, meridian before or after the 12-hour field, text ending after every token; also swept exhaustively under 7 clocks), rotated over Date / Timestamp / OracleDate; Date::now, Timestamp::now, OracleDate::now, Timestamp::try_from(Time), OracleDate::try_from(Time); the same constructors with the clock inside a leap second (second 59 + 1,000,000..1,999,999 us: an error or an in-range value within those two seconds). Every parse goes through T::parse, a fresh Formatter and a long-lived Formatter (compiled once per thread and picture, so it has parsed under many other current dates before). Once per run, before any worker thread starts, the five clock readers are also called WITHOUT the hook under a process time zone 13 hours east or west of UTC (whichever makes the local date differ from the UTC date at that moment): they must agree on the local date. Oracle: model defaults (year and month from the clock, day 1, time 0, 12 for an omitted 12-hour field, short years completed with the leading digits of the clock year) validated by the walked calendar (so DD=31 in a 30-day current month, DDD=366 in a common current year, a completed year 0 are errors). Complete pictures (14 shapes incl. weekday + day of year with and without month / day x date pool) must give the identical value under 9 different clocks incl. both range ends. Non-trivial = clock at a month end / year end / century-end year / 29 Feb / year < 1000 / year 9999; distinct by enumeration.", tods.len()),
         assumptions: vec!["the hook only replaces the value of chrono::Local::now().naive_local() at the six places the library reads it; with the feature off the code is the original".into()],
         exhaustive: true,
         extra: Default::default(),
